@@ -815,3 +815,51 @@ def t13_membership_of_total_mappings(ctx) -> None:
                                       "the test is True for every key, so a label that was never issued counts as known")
     if total:
         ctx.ok("T9", f"no membership test relies on the Mapping mix-in of {', '.join(total)} (their __getitem__ is total)")
+
+
+# ------------------------------------------------------------------------ T14
+def t14_normalise_before_use(ctx, modules: Tuple[str, ...], rule_id: str = "T14") -> None:
+    """A parameter that may arrive in two forms (a class or its label, ...) and is brought to
+    one form by `if isinstance(p, T): p = conv(p)` (or `if not isinstance ...`) is not read
+    before that statement: what is done with the other form (compared with classes, used as
+    a key) silently does nothing or the wrong thing."""
+    P = ctx.P
+    n = 0
+    for fi in P.all_functions():
+        if fi.module.short not in modules:
+            continue
+        f = fi.node
+        params = set(fi.params()) | {a.arg for a in f.args.kwonlyargs}
+        for st in f.body if True else []:
+            pass
+        for st in walk_local(f):
+            if not (isinstance(st, ast.If) and not st.orelse and len(st.body) == 1):
+                continue
+            test = st.test
+            if isinstance(test, ast.UnaryOp) and isinstance(test.op, ast.Not):
+                test = test.operand
+            if not (isinstance(test, ast.Call) and norm(test.func) == "isinstance" and len(test.args) == 2 and isinstance(test.args[0], ast.Name)):
+                continue
+            p = test.args[0].id
+            if p not in params:
+                continue
+            b = st.body[0]
+            t, v = (b.targets[0], b.value) if isinstance(b, ast.Assign) and len(b.targets) == 1 else (None, None)
+            if not (isinstance(t, ast.Name) and t.id == p and isinstance(v, ast.Call) and any(isinstance(x, ast.Name) and x.id == p for a in v.args for x in ast.walk(a))):
+                continue
+            if C.block_path(f, st)[-1][0] is not f:
+                continue            # only a normalisation at the top level of the function speaks for the whole function
+            n += 1
+            ctx.analysed(fi)
+            early = [x for x in walk_local(f) if isinstance(x, ast.Name) and x.id == p and isinstance(x.ctx, ast.Load)
+                     and not any(x is y for y in ast.walk(st)) and not C.dominates(f, st, x)]
+            # a debug assertion / log line that mentions the raw argument is not a use
+            early = [x for x in early if not isinstance(C.stmt_of(x), ast.Assert) and "logger." not in norm(C.stmt_of(x))[:12]]
+            if early:
+                x = early[0]
+                ctx.violation(rule_id, x, f"{fi.qualname} reads `{p}` in `{norm(C.stmt_of(x))[:70]}` before `{norm(st.test)}` has brought it to one form (`{norm(b)}`): for the other "
+                              "form of the argument that statement compares / looks up the wrong kind of value")
+            else:
+                ctx.ok(rule_id, f"{fi.qualname}: `{p}` is normalised ({norm(b)[:50]}) before anything else reads it")
+    if n < 1:
+        ctx.floor(rule_id, 99)
